@@ -73,7 +73,7 @@ def gen_cases(rng, tier):
     for _ in range(na):
         n1, n2 = rng.randint(2, 5), rng.randint(3, 5)
         mk = (lambda: rng.choice(lat)) if rng.random() < 0.5 else (lambda: (dy(), dy()))
-        cases.append(dict(kind="poly", w1=[mk() for _ in range(n1)], w2=[mk() for _ in range(n2)]))
+        cases.append(dict(kind="poly", w1=[mk() for _ in range(n1)], w2=[mk() for _ in range(n2)], c1=rng.random() < 0.7, c2=rng.random() < 0.7))
     for _ in range(na):
         mk = (lambda: rng.choice(lat)) if rng.random() < 0.5 else (lambda: (dy(), dy()))
         cases.append(dict(kind="closest", p=mk(), a=mk(), b=mk()))
@@ -92,7 +92,8 @@ def coq_case(c, r):
     if k == "area":
         return [f"verdict_area {plist(c['w'])} {q(r['area'])} {'true' if r['cw'] else 'false'}"]
     if k == "poly":
-        return [f"verdict_poly {plist(c['w1'])} {plist(c['w2'])} {'true' if r['x'] else 'false'}"]
+        b = lambda v: "true" if v else "false"
+        return [f"verdict_poly2 {b(c.get('c1', True))} {b(c.get('c2', True))} {plist(c['w1'])} {plist(c['w2'])} {b(r['x'])}"]
     if k == "closest":
         if r["d2"] is None or (isinstance(r["d2"], float) and math.isnan(r["d2"])):
             return [f"verdict_closest {pt(c['p'])} {pt(c['a'])} {pt(c['b'])} 0"] if c["a"] == c["b"] else None
